@@ -252,7 +252,11 @@ impl Sim {
     fn content(&self, var: u64) -> (u64, u64, Vec<HTLCInfo2>, Vec<HTLCInfo2>, u32) {
         let feerate = 1100u32;
         let fees = 20_000u64;
-        let (offered, received): (Vec<HTLCInfo2>, Vec<HTLCInfo2>) = match var % 3 {
+        let (offered, received): (Vec<HTLCInfo2>, Vec<HTLCInfo2>) = match if var >= 9 { var } else { var % 3 } {
+            // outgoing HTLCs: backed by the approved keysend, for an unapproved hash, overpaying the approved one
+            9 => (vec![HTLCInfo2 { value_sat: 10_000, payment_hash: PaymentHash([3; 32]), cltv_expiry: 3 << 16 }], vec![]),
+            10 => (vec![HTLCInfo2 { value_sat: 10_000, payment_hash: PaymentHash([5; 32]), cltv_expiry: 3 << 16 }], vec![]),
+            11 => (vec![HTLCInfo2 { value_sat: 25_000, payment_hash: PaymentHash([3; 32]), cltv_expiry: 3 << 16 }], vec![]),
             0 => (vec![], vec![]),
             1 => (vec![], vec![HTLCInfo2 { value_sat: 10_000, payment_hash: PaymentHash([3; 32]), cltv_expiry: 3 << 16 }]),
             _ => (
@@ -264,7 +268,7 @@ impl Sim {
             ),
         };
         let sum: u64 = offered.iter().chain(received.iter()).map(|h| h.value_sat).sum();
-        let to_holder = 2_000_000 - (var / 3) * 1000;
+        let to_holder = 2_000_000 - (if var >= 9 { 0 } else { var / 3 }) * 1000;
         let to_cp = CHANNEL_VALUE - to_holder - sum - fees;
         (to_holder, to_cp, offered, received, feerate)
     }
@@ -825,9 +829,9 @@ pub fn gen_ops(rng: &mut Rng, len: usize) -> Vec<String> {
         }
         let d = *rng.pick(&[0i64, 0, 0, 0, 1, -1, 2, -2]);
         let op = match rng.below(30) {
-            0..=4 => format!("vh{} {} {} {}", if rng.chance(1, 4) { "1" } else { "" }, d, if rng.chance(4, 5) { "g" } else { "b" }, rng.below(9)),
+            0..=4 => format!("vh{} {} {} {}", if rng.chance(1, 4) { "1" } else { "" }, d, if rng.chance(4, 5) { "g" } else { "b" }, rng.below(12)),
             5..=8 => format!("rv {}", d),
-            9..=11 => format!("scp{} {} {}", if rng.chance(1, 4) { "1" } else { "" }, d, rng.below(9)),
+            9..=11 => format!("scp{} {} {}", if rng.chance(1, 4) { "1" } else { "" }, d, rng.below(12)),
             12..=14 => format!("cpr {} {}", d, if rng.chance(3, 4) { "g" } else { "b" }),
             15 => match rng.below(6) {
                 0 => "shr".to_string(),
